@@ -665,7 +665,8 @@ def r_records(root):
 # ---------------------------------------------------------------------------------------------------------------- .F
 PARAM_PROPS = {"encoding": ("C28", "C17"), "ignore_case": ("C20",), "autokwd": ("C21",), "skipws": ("C22",), "ws": ("C22",), "memoization": ("C19",), "model_params": ("C27",),
                "custom_args": ("C30",), "overwrite": ("C31", "C30"), "output_path": ("C30",), "kwargs": ("C20", "C21", "C22", "C27"), "file_name": ("C28",), "is_main_model": ("C17",),
-               "add_to_local_models": ("C17",), "project_name": ("C26",), "project_version": ("C26",), "pre_ref_resolution_callback": ("C17",), "importAs": ("C17",), "search_path": ("C17",)}
+               "add_to_local_models": ("C17",), "project_name": ("C26",), "project_version": ("C26",), "pre_ref_resolution_callback": ("C17",), "importAs": ("C17",), "search_path": ("C17",), "glob_args": ("C17",), "filename_pattern": ("C17",),
+               "importURI_converter": ("C17",), "importURI_to_scope_name": ("C17",), "scope_redirection_logic": ("C17",)}
 FILE_PROPS = {"textx/cli/generate.py": ("C30",), "textx/cli/check.py": ("C30",), "textx/registration.py": ("C26", "C30"), "textx/generators.py": ("C31",)}
 FWD_EXCEPT = {   # (function, callee, parameter): reason
     ("TextXMetaModel.model_from_str", "get_model_from_str", "file_name"): "branch taken only when file_name is None",
@@ -698,10 +699,17 @@ def r_forward(root):
             fkw = fn.args.kwarg.arg if fn.args.kwarg else None
             if not fparams and not fkw: continue
             for c in calls(fn, own=True):
-                nm = callee_name(c)
+                nm = callee_name(c); shift = 0
+                if nm == "__init__" and isinstance(c.func, ast.Attribute):
+                    # Base.__init__(self, ...) / super().__init__(...): the constructor of the (first) base class
+                    if isinstance(c.func.value, ast.Name): nm = c.func.value.id; shift = 1
+                    elif isinstance(c.func.value, ast.Call) and callee_name(c.func.value) == "super":
+                        kls = next((a for a in ancestors(fn) if isinstance(a, ast.ClassDef)), None)
+                        nm = kls.bases[0].id if kls is not None and kls.bases and isinstance(kls.bases[0], ast.Name) else None
                 if nm not in defs or len(defs[nm]) != 1 or defs[nm][0] is fn: continue
                 g = defs[nm][0]
                 gparams = [a.arg for a in g.args.args + g.args.kwonlyargs if a.arg not in ("self", "cls")]
+                if shift: c = ast.Call(func=c.func, args=c.args[shift:], keywords=c.keywords)
                 if nm in ("metamodel_from_file", "metamodel_from_str"): gparams = gparams + [x for x in mm_opts if x not in gparams]     # their **kwargs are the options of TextXMetaModel
                 star = any(k.arg is None for k in c.keywords) or any(isinstance(a, ast.Starred) for a in c.args)
                 given = {k.arg for k in c.keywords if k.arg} | {gparams[i] for i in range(min(len(c.args), len(gparams)))}
